@@ -54,6 +54,11 @@ def add_trees(src, dst, texts):
 def classify(chk, mism, lines, texts=()):
     rm.tool_clauses(mism, lines)
     for m in mism:
+        if m["what"] == "write-denotes":
+            # What *another* XML reader makes of the written text goes beyond C34's statement (zbus_xml writes, zbus_xml
+            # reads back, values equal): diagnostic only, counted in the evidence, never a verdict.
+            chk.add("diagnostic_write_denotes_mismatches", 1)
+            continue
         obs = json.loads(lines[m["line"] - 1])
         d = m.get("detail") if isinstance(m.get("detail"), dict) else {}
         rp = {"observation": {"ev": "Xml", "doc": obs["doc"]}, "mismatch": m}
